@@ -14,20 +14,43 @@ Oracle : per (scene, size) in a supervised ASan worker (and the release build fo
          CONTACTFULL/CNSTRFULL was raised in that step, and without a warning ncon, nefc, qpos, qvel are bit-identical to
          the unbounded run.
 """
+import threading
+
+import numpy as np
 from hypothesis import strategies as st
 
 from vf import asanproc
 from vf import gen_contact as gc
 
 
+KNOWN_ISLAND = 'C20:clearIsland-zeroes-nefc-keeps-contact-efc_address'
+KNOWN_PAIR = 'C20:pushPairArena-null-deref'
+
+
+def sizes_for(need, quick):
+  sizes = set([need - 1, need, need + 64, 0, 1, 8, 63, 64])
+  if quick:
+    sizes |= set(int(x) for x in np.linspace(0, need, 40))
+    sizes |= set(range(0, min(need, 6144), 64))
+  else:
+    sizes |= set(range(0, need, 64))
+    sizes |= set(range(0, min(need, 8192), 8))
+  return sorted(x for x in sizes if x >= 0)
+
+
 def main(ck):
   ck.rule = ('Hypothesis scenes (collected in the parent, executed in workers) x swept memory sizes; one evaluation = one '
              '(scene, memory size, build variant) run of up to 3 steps; non-trivial = an allocation site failed: a '
-             'CONTACTFULL/CNSTRFULL warning or a catchable mju_error was observed; distinct by (scene, size, variant)')
+             'CONTACTFULL/CNSTRFULL warning or a catchable mju_error was observed (or the run violated the property); '
+             'distinct by (scene, size, variant)')
   ck.assumptions = ['"warning iff smaller set" is asserted as: smaller set => warning, and no warning => identical result; '
                     'a warning with an unchanged ncon/nefc is legal (island arrays failing only disables islands)',
                     'the need is searched by bisection, assuming clean runs are monotone in memory up to alignment effects; '
-                    'need and need+64 are re-checked to be clean']
+                    'need and need+64 are re-checked to be clean',
+                    'the arena size is applied as mjModel.narena on the model compiled with ample memory (that is what '
+                    '<size memory> compiles to); sizes too small for the compiler itself are thereby also covered',
+                    'a release-build worker death carries no report: it is attributed to the known pushPairArena finding only if '
+                    'the ASan sweep of the same scene died in pushPairArena as well']
   nmodels = ck.budget(8, 200)
   scenes = []
 
@@ -36,52 +59,106 @@ def main(ck):
   ck.run_hypothesis(collect, st.tuples(gc.scenes(max_objects=14 if ck.quick else 24), st.integers(0, 2 ** 31 - 1)),
                     nmodels, name='scenes')
   scenes[:] = scenes[:nmodels]
-  jobs = []
-  for i, (scene, seed) in enumerate(scenes):
-    base = dict(scene=scene, seed=seed, nsteps=3, coarse=40, dense_step=64, dense_span=4096,
-                every=None if ck.quick else 64)
-    jobs.append(dict(base, variant='asan'))
-  jobs_rel = [dict(j, variant='rel') for j in jobs[::2]]
   from vf import build as vb
   for v in ('rel', 'asan'):
     vb.build(v)
-  import threading
-  out = {}
+  tmo = 600 if ck.quick else 5400
+  npa, npr = (6, 2) if ck.quick else (12, 4)
+  base = [dict(scene=sc, seed=seed, nsteps=3, variant='asan', sid=i) for i, (sc, seed) in enumerate(scenes)]
+  base += [dict(b, variant='rel') for b in base[::2]]
 
-  def go(key, js, asan, nproc):
-    out[key] = asanproc.run_jobs('checks.c20_worker', js, nproc=nproc, asan=asan, tag='C20' + key,
-                                 timeout=(600 if ck.quick else 5400))
-  ths = [threading.Thread(target=go, args=('asan', jobs, True, 6 if ck.quick else 12)),
-         threading.Thread(target=go, args=('rel', jobs_rel, False, 2 if ck.quick else 4))]
-  for t in ths:
-    t.start()
-  for t in ths:
-    t.join()
+  def run_wave(jobs):
+    """run asan and rel jobs concurrently -> results aligned with jobs"""
+    res = [None] * len(jobs)
+    ia = [i for i, j in enumerate(jobs) if j['variant'] == 'asan']
+    ir = [i for i, j in enumerate(jobs) if j['variant'] == 'rel']
+
+    def go(idx, asan, nproc, tag):
+      if idx:
+        out = asanproc.run_jobs('checks.c20_worker', [jobs[i] for i in idx], nproc=nproc, asan=asan, tag=tag, timeout=tmo)
+        for i, o in zip(idx, out):
+          res[i] = o
+    ths = [threading.Thread(target=go, args=(ia, True, npa, 'C20asan')),
+           threading.Thread(target=go, args=(ir, False, npr, 'C20rel'))]
+    for t in ths:
+      t.start()
+    for t in ths:
+      t.join()
+    return res
+
+  asan_pair_death = set()     # scene ids whose ASan sweep died in pushPairArena
+  deaths = []                 # deferred: (job, res) of worker deaths, reported after all waves (rel attribution)
+
+  def note_death(job, res):
+    j = res.get('journal') or {}
+    if job['variant'] == 'asan' and 'pushPairArena' in (res.get('frame') or '') + (res.get('report') or '')[:3000]:
+      asan_pair_death.add(job['sid'])
+    deaths.append((job, res))
+    ck.case(nontrivial=True, key=('death', job['variant'], job['scene']['body'], j.get('memory')),
+            sample=dict(variant=job['variant'], nobj=job['scene']['nobj'], memory=j.get('memory'), step=j.get('step'),
+                        outcome='process death: %s @ %s' % (res['kind'], res['frame'])),
+            labels=['variant=' + job['variant'], 'outcome:process-death'] + job['scene']['labels'])
+    return j.get('memory')
+
+  # ---- wave 1: need by bisection (a size that kills the worker is avoided in the retry and reported)
+  info = {}
+  pending = [dict(b, mode='bisect', avoid=[]) for b in base]
+  for attempt in range(6):
+    if not pending:
+      break
+    out = run_wave(pending)
+    nxt = []
+    for job, res in zip(pending, out):
+      if res['ok']:
+        r = res['result']
+        for v in r['violations']:
+          ck.violation('%s [%s build]' % (v['msg'], job['variant']), dict(xml=gc.render(job['scene']), seed=job['seed']),
+                       bucket=v['bucket'])
+        if r['need'] is not None:
+          info[(job['sid'], job['variant'])] = r
+      elif res.get('harness'):
+        raise RuntimeError('worker setup failed: %s' % res['stderr'][-1500:])
+      else:
+        S = note_death(job, res)
+        if S is not None:
+          nxt.append(dict(job, avoid=job['avoid'] + [S]))
+    pending = nxt
+  # ---- wave 2+: sweeps in chunks; after a death the rest of the chunk is resubmitted without the fatal size
+  pending = []
+  for b in base:
+    r = info.get((b['sid'], b['variant']))
+    if not r:
+      continue
+    sizes = sizes_for(r['need'], ck.quick)
+    nchunk = 3 if ck.quick else 8
+    for c in range(nchunk):
+      pending.append(dict(b, mode='sweep', need=r['need'], sizes=sizes[c::nchunk]))
   needs = []
-  for key, js in (('asan', jobs), ('rel', jobs_rel)):
-    for job, res in zip(js, out[key]):
-      scene = job['scene']
+  for attempt in range(8):
+    if not pending:
+      break
+    out = run_wave(pending)
+    nxt = []
+    for job, res in zip(pending, out):
+      scene, key = job['scene'], job['variant']
       if not res['ok']:
         if res.get('harness'):
           raise RuntimeError('worker setup failed: %s' % res['stderr'][-1500:])
-        j = res.get('journal') or {}
-        ck.violation('memory=%s step=%s [%s build]: worker process died (%s, rc=%s) @ %s\n%s' % (
-            j.get('memory'), j.get('step'), key, res['kind'], res['rc'], res['frame'],
-            (res['report'] or res['stderr'])[:3000]),
-            dict(xml=gc.render(scene, j.get('memory')), seed=job['seed'], memory=j.get('memory'), step=j.get('step'),
-                 variant=key, report=res['report'][:6000]),
-            bucket='%s:%s' % (res['kind'], res['frame']))
-        ck.case(nontrivial=True, key=('death', key, scene['body'], j.get('memory')), labels=['process-death:' + key])
+        S = note_death(job, res)
+        rest = [x for x in job['sizes'] if S is None or x > S]
+        if rest and S is not None:
+          nxt.append(dict(job, sizes=rest))
         continue
       r = res['result']
+      need = job['need']
       for v in r['violations']:
-        ck.violation('%s [%s build]' % (v['msg'], key), dict(xml=gc.render(scene), seed=job['seed'], variant=key),
-                     bucket=v['bucket'])
-      if r['need'] is not None:
-        needs.append(dict(variant=key, nobj=scene['nobj'], need=r['need'], min_compile=r['min_compile'],
-                          maxuse_unbounded=r.get('maxuse_unbounded'), ref=r['ref']))
+        fp = KNOWN_ISLAND if v['bucket'] == 'efc_address:island-failure' else None
+        ck.violation('%s [%s build]' % (v['msg'], key),
+                     dict(xml=gc.render(scene, v.get('memory')), seed=job['seed'], variant=key, memory=v.get('memory'),
+                          note='arena size applied as mjModel.narena on the model compiled with default memory'),
+                     bucket=v['bucket'], fingerprint=fp)
       for o in r['outcomes']:
-        nt = o['kind'] == 'error' or (o['kind'] == 'ok' and bool(o['warn']))
+        nt = o['kind'] in ('error', 'violation') or (o['kind'] == 'ok' and bool(o['warn']))
         labels = ['variant=' + key, 'outcome:' + o['kind']] + scene['labels']
         if o['kind'] == 'error':
           labels.append('error@' + str(o['site']))
@@ -90,12 +167,34 @@ def main(ck):
         if o['kind'] == 'ok' and not o['warn']:
           labels.append('outcome:clean')
         ck.case(nontrivial=nt, key=(key, scene['body'], job['seed'], o['S']),
-                sample=dict(variant=key, nobj=scene['nobj'], memory=o['S'], need=r['need'], outcome=o['kind'],
+                sample=dict(variant=key, nobj=scene['nobj'], memory=o['S'], need=need, outcome=o['kind'],
                             warnings=o.get('warn'), error_site=o.get('site'), steps_completed=o.get('steps'),
-                            unbounded_ncon_nefc=r['ref']) if nt else None,
+                            unbounded_ncon_nefc=r['ref']) if nt and o['kind'] != 'error' or (nt and o['S'] > 4096) else None,
                 labels=labels)
+    pending = nxt
+  for (sid, variant), r in sorted(info.items()):
+    needs.append(dict(scene=sid, variant=variant, nobj=scenes[sid][0]['nobj'], need=r['need'],
+                      maxuse_unbounded=r.get('maxuse_unbounded'), ref=r['ref']))
+  # ---- report worker deaths
+  for job, res in deaths:
+    j = res.get('journal') or {}
+    key = job['variant']
+    fp = None
+    blob = (res.get('frame') or '') + (res.get('report') or '')[:3000]
+    if key == 'asan' and 'pushPairArena' in blob:
+      fp = KNOWN_PAIR
+    if key == 'rel' and res['rc'] == -11 and job['sid'] in asan_pair_death:
+      fp = KNOWN_PAIR
+    ck.violation('memory=%s step=%s [%s build]: worker process died (%s, rc=%s) @ %s\n%s' % (
+        j.get('memory'), j.get('step'), key, res['kind'], res['rc'], res['frame'],
+        (res['report'] or res['stderr'])[:3000]),
+        dict(xml=gc.render(job['scene'], j.get('memory')), seed=job['seed'], memory=j.get('memory'), step=j.get('step'),
+             variant=key, report=(res['report'] or '')[:6000],
+             note='arena size applied as mjModel.narena on the model compiled with default memory'),
+        bucket='%s:%s:%s' % (key, res['kind'], res['frame']), fingerprint=fp)
   ck.extra['needs'] = needs[:12]
   ck.extra['scenes'] = len(scenes)
+  ck.extra['worker_deaths'] = len(deaths)
 
 
 LEVEL = 'exploration'
